@@ -110,9 +110,20 @@ class DictInterp:
                 return base.get(self.ev(e.args[0]), self.ev(e.args[1]) if len(e.args) == 2 else None)
             if isinstance(f, ast.Attribute) and f.attr in ('keys',) and not e.args:
                 return list(self.ev(f.value).keys())
+            if isinstance(f, ast.Name) and f.id in ('sum', 'len', 'bool', 'any', 'all') and len(e.args) == 1 \
+                    and not e.keywords and f.id not in self.env:
+                v = self.ev(e.args[0])
+                return {'sum': sum, 'len': len, 'bool': bool, 'any': any, 'all': all}[f.id](v)
             if isinstance(f, ast.Name) and f.id in self.env and callable(self.env[f.id]):
                 return self.env[f.id](*[self.ev(a) for a in e.args])
             self.fail(e)
+        if isinstance(e, ast.IfExp):
+            return self.ev(e.body) if self.ev(e.test) else self.ev(e.orelse)
+        if isinstance(e, ast.BinOp) and isinstance(e.op, (ast.Mod, ast.Add)):
+            l, r = self.ev(e.left), self.ev(e.right)
+            if isinstance(l, int) and isinstance(r, int) and not isinstance(l, bool):
+                return l % r if isinstance(e.op, ast.Mod) else l + r
+            self.fail(e, '(arithmetic on non-integers)')
         if isinstance(e, (ast.Tuple, ast.List)):
             return tuple(self.ev(x) for x in e.elts)
         if isinstance(e, ast.DictComp) and len(e.generators) == 1:
